@@ -111,7 +111,8 @@ def run_config(case, rt):
             return
         # the probe uses nothing but UnitTest.hh and the standard library: it has to compile
         raise hc.Fail("probe-does-not-compile:%s" % cxx, "%s: %s" % (how, err))
-    out = subprocess.run([exe], stdout=subprocess.PIPE, stderr=subprocess.STDOUT, timeout=300)
+    # (what the library may write to stderr while an expectation fails is not part of the statement: only the probe's stdout is read)
+    out = subprocess.run([exe], stdout=subprocess.PIPE, stderr=subprocess.DEVNULL, timeout=300)
     hc.vcheck(out.returncode == 0, "probe-exit:%s" % cxx, "probe (%s) exited with %d: %s" % (how, out.returncode, out.stdout[-400:]))
     rows = [l.split() for l in out.stdout.decode("latin-1").split("\n") if l.strip()]
     hc.vcheck(rows and rows[0] == ["M", str(len(EXPECTED)), str(len(THROWN)), str(FIRST_SHARED)], "ORACLE-probe-output",
